@@ -1115,6 +1115,19 @@ package fsm
 //@   ensures [C04.sync.completed] result == nil ==> p.pebble.v.nflush == old(p.pebble.v.nflush) + 1
 //@   modifies p.pebble.v.nflush
 
+// Close: a clean shutdown closes the DB only after one more flush has completed (what was applied
+// since the last Sync is not left to the - disabled - WAL), and marks the state machine closed first
+//@ import prometheus "github.com/prometheus/client_golang/prometheus"
+//@ func prometheus.Unregister
+//@   assumed
+//@   modifies nothing
+//@ func (*FSM).Close
+//@   maypanic
+//@   requires p != nil && (p.pebble.v != nil ==> p.pebble.v.lazyReaders == 0)
+//@   before pebble.(*DB).Close assert [C04.close.flushed] d == p.pebble.v && p.closed && d.nflush == old(d.nflush) + 1
+//@   ensures p.closed
+//@   modifies p.closed, p.pebble.v.nflush
+
 // checkpoint format: the checkpoint (the point-in-time image) is taken by prepare - after a completed
 // flush, on the DB as it is at that call - and save only ships the directory prepare produced; save
 // never checkpoints or flushes (so writes applied between prepare and save cannot leak in)
@@ -1157,11 +1170,7 @@ package fsm
 // data directory is derived from the state-machine directory, the host name and "<table>-<shard>"
 //@ import os "os"
 //@ trustframe "os" "go.uber.org/zap"
-//@ uninterp func dbDirOf(base string, host string, name string) string
-//@ func pebble.GetNodeDBDirName
-//@   assumed
-//@   ensures result == dbDirOf(baseDir, hostname, name)
-//@   modifies nothing
+// (pebble.GetNodeDBDirName is verified in package pebble: base/host/name)
 //@ func newMetrics
 //@   assumed
 //@   ensures result != nil && fresh(result)
@@ -1170,6 +1179,8 @@ package fsm
 //@   maypanic
 //@   ensures [C14.new.fields+C04+C08+C11] typeIs(result, *FSM) && asType(result, *FSM) != nil && fresh(asType(result, *FSM)) && asType(result, *FSM).tableName == *tableName && asType(result, *FSM).clusterID == clusterID && asType(result, *FSM).nodeID == nodeID && asType(result, *FSM).fs == *fs && asType(result, *FSM).recoveryType == *srt && asType(result, *FSM).appliedFunc == *af && asType(result, *FSM).metrics != nil && asType(result, *FSM).log != nil
 //@   before pebble.GetNodeDBDirName assert [C04.new.dir] baseDir == *stateMachineDir
+//@   before pebble.GetNodeDBDirName assert [C14.new.dirkey] name == sprintfSD(*tableName, clusterID)      // the directory is keyed by table name AND shard id: a table recreated under an old name (new id) starts empty
+//@   ensures [C14.new.dirname+C04] exists h string :: asType(result, *FSM).dirname == pjoin(pjoin(*stateMachineDir, h), sprintfSD(*tableName, clusterID))
 //@   modifies nothing
 
 // ---------------------------------------------------------------- the three fillers of a range answer (C09, C01)
